@@ -31,6 +31,7 @@ SHARES = {
 }
 QUERIES = ['song', 'first song', 'artist', 'flac', 'nothing matches this', 'secret', 'song -first', 'notes', 'live set', '']
 ASKERS = ['alice', 'bob', 'erin', 'me']
+BLOCKED = ['erin']        # blocked for searches (Settings.users.blocked)
 TICKETS = [0, 1, 7, 12345, 4294967295]
 
 
@@ -112,6 +113,8 @@ def search_fields(ev):
 def new_rig():
     from checks.c13_rig import Rig
     rig = Rig(with_search=True, share_tree=SHARES)
+    from aioslsk.user.model import BlockingFlag
+    rig.settings.users.blocked = {u: BlockingFlag.SEARCHES for u in BLOCKED}
     for a in ASKERS:
         rig.add_asker(a)
     return rig
@@ -301,7 +304,8 @@ def monitor(events, obs):
             # ---- answer
             if prev['session']:
                 vis, locked = o['oracle']
-                want = ([{'user': 'me', 'ticket': t, 'visible': vis, 'locked': locked}] if (code_ok and (vis or locked)) else [])
+                want = ([{'user': 'me', 'ticket': t, 'visible': vis, 'locked': locked}]
+                        if (code_ok and (vis or locked) and u not in BLOCKED) else [])
                 for a, reps in o['replies'].items():
                     if a != u:
                         add('reply-to-wrong-user', 'a search reply was sent to a user who did not ask', det)
@@ -388,8 +392,9 @@ def coq_cases(cases):
              f'Definition qtable : list ((nat * nat) * (list nat * list nat)) := {tab}.',
              'Definition query (u q : nat) : list nat * list nat :=',
              ' match find (fun e => Nat.eqb (fst (fst e)) u && Nat.eqb (snd (fst e)) q) qtable with Some e => snd e | None => ([], []) end.',
+             f'Definition blocked (u : nat) : bool := memn u {nl(name_id(u) for u in BLOCKED)}.',
              'Definition cases : list (nat * nat * list ev14 * list obs14) := [', ';\n'.join(rows), '].',
-             'Definition bad := flat_map (fun c => let \'(i, K, evs, os) := c in let d := first_diff14 query K init evs os 0 in '
+             'Definition bad := flat_map (fun c => let \'(i, K, evs, os) := c in let d := first_diff14 query blocked K init evs os 0 in '
              'if Nat.eqb d (length evs) then [] else [(i, d)]) cases.',
              'Eval vm_compute in bad.']
     return '\n'.join(lines) + '\n'
